@@ -123,6 +123,17 @@ def ekf_driver(p, ns="gen"):
     L.append("  if (sc == \"defaults\") {")
     L.append("    G::State s0; outState(\"s0_\", s0); G::Covariance c0; outCov(\"c0\", c0);")
     L.append("    G::StateOptions so; G::State s1(so); outState(\"s1_\", s1);")
+    # "defaults the rest": an Options object that is default-initialised over dirty memory and filled member by member
+    # (placement new over 0xFF bytes: a member without an initialiser shows as NaN in the plain-double build)
+    L.append("    { alignas(G::StateOptions) unsigned char buf[sizeof(G::StateOptions)]; memset(buf, 0xFF, sizeof buf);")
+    L.append("      G::StateOptions* o = new (buf) G::StateOptions; G::State s2(*o); outState(\"s2_\", s2); }")
+    for key in p.s_sensors():
+        T = tname(key)
+        L.append(f"    {{ alignas(G::{T}Options) unsigned char buf[sizeof(G::{T}Options)]; memset(buf, 0xFF, sizeof buf);")
+        L.append(f"      G::{T}Options* o = new (buf) G::{T}Options; G::{T} r0(*o);")
+        for r in p.s_readings(key):
+            L.append(f"      vsym::out(\"r0_{key}_{r}\", r0.{r}());")
+        L.append("    }")
     L.append("  }")
     # --- sensor model pieces
     for key in p.s_sensors():
